@@ -32,7 +32,7 @@ func (fc *FuncCtx) assign(st *State, lhs ast.Expr, v Term) {
 			return
 		}
 		v = fc.convertImplicit(st, v, vr.Type())
-		st.vars[vr] = Term{S: v.S, T: vr.Type(), Const: v.Const}
+		st.vars[vr] = fc.compact(Term{S: v.S, T: vr.Type(), Const: v.Const})
 	case *ast.SelectorExpr:
 		if id, ok := x.X.(*ast.Ident); ok {
 			if _, isPkg := fc.info.ObjectOf(id).(*types.PkgName); isPkg {
@@ -224,9 +224,10 @@ func (fc *FuncCtx) exec(st *State, s ast.Stmt) *State {
 		}
 		c := fc.eval(st, x.Cond)
 		th := st.clone()
-		th.guard = and(st.guard, c.S)
+		cs := fc.compactBool(c.S)
+		th.guard = and(st.guard, cs)
 		el := st.clone()
-		el.guard = and(st.guard, not(c.S))
+		el.guard = and(st.guard, not(cs))
 		th = fc.exec(th, x.Body)
 		if x.Else != nil {
 			el = fc.exec(el, x.Else)
@@ -338,7 +339,7 @@ func (fc *FuncCtx) execAssign(st *State, lhs, rhs []ast.Expr, define bool, n ast
 			if id, ok := l.(*ast.Ident); ok && id.Name != "_" {
 				if obj, ok := fc.info.Defs[id].(*types.Var); ok {
 					v := fc.convertImplicit(st, vals[i], obj.Type())
-					st.vars[obj] = Term{S: v.S, T: obj.Type(), Const: v.Const}
+					st.vars[obj] = fc.compact(Term{S: v.S, T: obj.Type(), Const: v.Const})
 					continue
 				}
 			}
